@@ -1,6 +1,6 @@
 (* Driver for the extracted C11 specification (coq/ANSpec.v).  Input: the history format of harness/drive_an.c,
-   where the lines of ref-allocating operations (create, createf, select, dfputlabel, dfputdesc, dfaddfid,
-   dfaddfds) carry one extra trailing token: the ref the library chose (0 when it failed).
+   where the lines of ref-allocating / ref-choosing operations (create, createf, select, gettagref, dfputlabel, dfputdesc,
+   dfaddfid, dfaddfds, dffidlen, dffdslen, dffid, dffds) carry one extra trailing token: the ref the library chose (0 when it failed).
    Lines "file N" switch between up to three independent files (one specification state each).
    Output per line: "<ln> ok v.. alt/alt .." | "<ln> oneof v.." | "<ln> fail" | "<ln> unspec" | "<ln> badref" *)
 open An_spec
@@ -18,7 +18,7 @@ let hex l = if l = [] then "-" else String.concat "" (List.map (fun b -> Printf.
 
 let () =
   let ic = open_in Sys.argv.(1) in
-  let sts = Array.make 3 init in
+  let sts = Array.make 3 xinit in
   let cur = ref 0 in
   let nfiles = ref 1 in
   let ln = ref 0 in
@@ -32,7 +32,7 @@ let () =
       let tx k = try unhex (List.nth toks k) with _ -> [] in
       let op = match toks with
         | [] -> None
-        | "history" :: _ -> Array.fill sts 0 3 init; cur := 0; nfiles := 1; None
+        | "history" :: _ -> Array.fill sts 0 3 xinit; cur := 0; nfiles := 1; None
         | "start" :: _ -> Some OStart
         | "end" :: _ -> Some OEnd
         | "create" :: _ -> Some (OCreate (zi 1, zi 2, zi 3, zi 4, zi 5))
@@ -61,14 +61,24 @@ let () =
         | "dfgetfdss" :: _ -> Some (ODfGetFs (z 1))
         | "dflablist" :: _ -> Some (ODfLablist (zi 1, zi 2))
         | _ -> None in
+      let fb k = (i k) <> 0 in
+      let op = match toks with
+        | "gettagref" :: _ -> Some (XGetTagref (zi 1, zi 2, zi 3))
+        | "dffidlen" :: _ -> Some (XFLen (z 0, fb 1, zi 2))
+        | "dffdslen" :: _ -> Some (XFLen (z 1, fb 1, zi 2))
+        | "dffid" :: _ -> Some (XFGet (z 0, fb 1, zi 2, zi 3))
+        | "dffds" :: _ -> Some (XFGet (z 1, fb 1, zi 2, zi 3))
+        | _ -> (match op with Some o -> Some (XOp o) | None -> None) in
       match op with
       | None -> (match toks with "history" :: _ -> Printf.printf "%d history\n" !ln
                  | "names" :: rest -> nfiles := List.length rest; Printf.printf "%d skip\n" !ln
-                 | "file" :: _ -> if i 1 >= 0 && i 1 < !nfiles then begin cur := i 1; Printf.printf "%d ok\n" !ln end
+                 | "file" :: _ -> if i 1 >= 0 && i 1 < !nfiles then begin
+                                    cur := i 1; Array.iteri (fun k x -> sts.(k) <- fst (xstep x XSwitch)) sts;
+                                    Printf.printf "%d ok\n" !ln end
                                   else Printf.printf "%d fail\n" !ln
                  | _ -> Printf.printf "%d skip\n" !ln)
       | Some o ->
-        let (s', r) = step sts.(!cur) o in
+        let (s', r) = xstep sts.(!cur) o in
         sts.(!cur) <- s';
         (match r with
          | RFail -> Printf.printf "%d fail\n" !ln
